@@ -429,9 +429,9 @@ func c13Pool() *kernel.Pool {
 
 func C13() int {
 	rep := kernel.NewReport("C13", "model_checking")
-	depth := 3
+	depth := 4
 	if rep.Tier == "thorough" {
-		depth = 4
+		depth = 5
 	}
 	rep.Rule = fmt.Sprintf("breadth-first search to depth %d over the tenant model with operations ingest(org∈{0,1}, index∈{a, ab, a-b}), add/remove alias (x, and ab which is also an index name), "+
 		"delete(org, index | a*), rotate; every distinct canonical state (sorted model + layout flag) is reached on the real code by replaying its shortest path in a fresh name space, "+
